@@ -344,6 +344,293 @@ theorem order_prefix (dev : Dev) (s : St) (op : Op) :
   all_goals (gpu_unfold [hfb] at hout <;> (repeat' split at hout) <;> subst hout <;>
     simp [ctrlCmds, fullSeq, changeSeq, hfb, Cmd.type] <;> decide)
 
+/-! ### GPU backing memory stays allocated while attached (absent device errors)
+
+`Track` is a specification-level observer of the event trace (commands the device accepted, DMA
+allocations and releases): which regions are live, which resource has which region attached with
+which length, what size each resource was created with; `violated` records a release of an attached
+region, an attach of a region that is not live or too small, or a length other than the advertised
+`width*height*4`. -/
+structure Track where
+  live : Nat → Option Nat
+  backing : Nat → Option (Nat × Nat)
+  adv : Nat → Option Nat
+  violated : Prop
+
+def Track.ev (t : Track) : Ev → Track
+  | .alloc r p true => { t with live := fun x => if x = r then some p else t.live x }
+  | .alloc _ _ false => t
+  | .dealloc r _ =>
+    { t with live := fun x => if x = r then none else t.live x,
+             violated := t.violated ∨ ∃ res len, t.backing res = some (r, len) }
+  | .req 0 (.create2d id w h) => { t with adv := fun x => if x = id then some (w * h * 4) else t.adv x }
+  | .req 0 (.attach id r len) =>
+    { t with backing := fun x => if x = id then some (r, len) else t.backing x,
+             violated := t.violated ∨ ¬ (∃ p, t.live r = some p ∧ len ≤ p * 4096) ∨ t.adv id ≠ some len }
+  | .req 0 (.detach id) => { t with backing := fun x => if x = id then none else t.backing x }
+  | .req 0 (.unref id) => { t with backing := fun x => if x = id then none else t.backing x,
+                                   adv := fun x => if x = id then none else t.adv x }
+  | _ => t
+
+def Track.run (t : Track) (evs : List Ev) : Track := evs.foldl Track.ev t
+
+structure BackInv (fb cur : Option Dma) (next : Nat) (t : Track) : Prop where
+  ok : ¬ t.violated
+  back : ∀ res r len, t.backing res = some (r, len) →
+      (res = RESOURCE_ID_FB ∧ ∃ d, fb = some d ∧ d.region = r) ∨ (res = RESOURCE_ID_CURSOR ∧ ∃ d, cur = some d ∧ d.region = r)
+  fbLive : ∀ d, fb = some d → t.live d.region = some d.pages
+  curLive : ∀ d, cur = some d → t.live d.region = some d.pages
+  fresh : ∀ r p, t.live r = some p → r < next
+  distinct : ∀ d d', fb = some d → cur = some d' → d.region ≠ d'.region
+
+theorem pages_cover (n : Nat) : n ≤ pagesFor n * 4096 := by
+  simp only [pagesFor, PAGE]; omega
+
+/-- fresh framebuffer: create, allocate, attach -/
+theorem inv_fb_attach (cur : Option Dma) (n : Nat) (t : Track) (w h : Nat)
+    (hi : BackInv none cur n t) :
+    BackInv (some ⟨n, pagesFor (w * h * 4)⟩) cur (n + 1)
+      (t.run [.req 0 (.create2d RESOURCE_ID_FB w h), .alloc n (pagesFor (w * h * 4)) true,
+              .req 0 (.attach RESOURCE_ID_FB n (w * h * 4)),
+              .req 0 (.setScanout 0 0 w h SCANOUT_ID RESOURCE_ID_FB)]) := by
+  have hc := pages_cover (w * h * 4)
+  simp only [Track.run, List.foldl, Track.ev]
+  refine ⟨?_, ?_, ?_, ?_, ?_, ?_⟩
+  · simp [hi.ok]; exact hc
+  · intro res r len hb
+    simp only at hb
+    split at hb
+    · rename_i h1; simp at hb; left; exact ⟨h1, _, rfl, hb.1⟩
+    · rcases hi.back res r len hb with ⟨_, d, hd, _⟩ | hr
+      · simp at hd
+      · right; exact hr
+  · intro d hd; simp at hd; subst hd; simp
+  · intro d hd
+    have := hi.fresh _ _ (hi.curLive d hd)
+    have hne : d.region ≠ n := by omega
+    simp only [hne, ↓reduceIte]
+    exact hi.curLive d hd
+  · intro r p hl
+    simp only at hl
+    split at hl
+    · omega
+    · have := hi.fresh r p hl; omega
+  · intro d d' hd hd'
+    simp at hd; subst hd
+    have := hi.fresh _ _ (hi.curLive d' hd')
+    simp; omega
+
+theorem inv_same {fb cur : Option Dma} {n : Nat} {t t' : Track} (hi : BackInv fb cur n t)
+    (h1 : t'.live = t.live) (h2 : t'.backing = t.backing) (h3 : t'.violated = t.violated) : BackInv fb cur n t' := by
+  refine ⟨?_, ?_, ?_, ?_, ?_, hi.distinct⟩
+  · rw [h3]; exact hi.ok
+  · rw [h2]; exact hi.back
+  · rw [h1]; exact hi.fbLive
+  · rw [h1]; exact hi.curLive
+  · rw [h1]; exact hi.fresh
+
+/-- tear-down of the old framebuffer: disable scanout, detach, unref, then release -/
+theorem inv_fb_teardown (cur : Option Dma) (n : Nat) (t : Track) (d : Dma) (hi : BackInv (some d) cur n t) :
+    BackInv none cur n
+      (t.run [.req 0 (.setScanout 0 0 0 0 SCANOUT_ID 0), .req 0 (.detach RESOURCE_ID_FB),
+              .req 0 (.unref RESOURCE_ID_FB), .dealloc d.region d.pages]) := by
+  simp only [Track.run, List.foldl, Track.ev]
+  refine ⟨?_, ?_, ?_, ?_, ?_, ?_⟩
+  · simp only [not_or, not_exists]
+    refine ⟨hi.ok, ?_⟩
+    intro res len hb
+    by_cases h1 : res = RESOURCE_ID_FB
+    · simp [h1] at hb
+    · simp only [h1, ↓reduceIte] at hb
+      rcases hi.back res _ len hb with ⟨h, _⟩ | ⟨_, d', hd', hr⟩
+      · exact h1 h
+      · exact hi.distinct d d' rfl hd' hr.symm
+  · intro res r len hb
+    by_cases h1 : res = RESOURCE_ID_FB
+    · simp [h1] at hb
+    · simp only [h1, ↓reduceIte] at hb
+      rcases hi.back res r len hb with ⟨h, _⟩ | hr
+      · exact absurd h h1
+      · right; exact hr
+  · intro d' hd'; simp at hd'
+  · intro d' hd'
+    have hne : d'.region ≠ d.region := fun h => hi.distinct d d' rfl hd' h.symm
+    simp only [hne, ↓reduceIte]
+    exact hi.curLive d' hd'
+  · intro r p hl
+    simp only at hl
+    split at hl
+    · simp at hl
+    · exact hi.fresh r p hl
+  · intro d0 d' hd; simp at hd
+
+/-- cursor set-up: allocate, create, attach the new region, transfer, update cursor, then release a previous buffer -/
+theorem inv_cursor (fb old : Option Dma) (n : Nat) (t : Track) (x y hx hy : Nat) (hi : BackInv fb old n t) :
+    BackInv fb (some ⟨n, 4⟩) (n + 1)
+      (t.run ([.alloc n 4 true, .req 0 (.create2d RESOURCE_ID_CURSOR 64 64),
+               .req 0 (.attach RESOURCE_ID_CURSOR n 16384), .req 0 (.transfer 0 0 64 64 0 RESOURCE_ID_CURSOR),
+               .req 1 (.cursor false SCANOUT_ID x y RESOURCE_ID_CURSOR hx hy)]
+              ++ (match old with | none => [] | some o => [.dealloc o.region o.pages]))) := by
+  have hfc : RESOURCE_ID_FB ≠ RESOURCE_ID_CURSOR := by decide
+  cases old with
+  | none =>
+    simp only [Track.run, List.append_nil, List.foldl, Track.ev]
+    refine ⟨?_, ?_, ?_, ?_, ?_, ?_⟩
+    · simp [hi.ok]
+    · intro res r len hb
+      simp only at hb
+      split at hb
+      · rename_i h1; simp at hb; right; exact ⟨h1, _, rfl, hb.1⟩
+      · rcases hi.back res r len hb with hl | ⟨_, d, hd, _⟩
+        · left; exact hl
+        · simp at hd
+    · intro d hd
+      have := hi.fresh _ _ (hi.fbLive d hd)
+      have hne : d.region ≠ n := by omega
+      simp only [hne, ↓reduceIte]; exact hi.fbLive d hd
+    · intro d hd; simp at hd; subst hd; simp
+    · intro r p hl
+      simp only at hl
+      split at hl
+      · omega
+      · have := hi.fresh r p hl; omega
+    · intro d d' hd hd'
+      simp at hd'; subst hd'
+      have := hi.fresh _ _ (hi.fbLive d hd)
+      simp; omega
+  | some o =>
+    have hon : o.region < n := hi.fresh _ _ (hi.curLive o rfl)
+    simp only [Track.run, List.cons_append, List.nil_append, List.foldl, Track.ev]
+    refine ⟨?_, ?_, ?_, ?_, ?_, ?_⟩
+    · simp only [not_or, not_exists]
+      refine ⟨⟨hi.ok, by simp⟩, ?_⟩
+      intro res len hb
+      by_cases h1 : res = RESOURCE_ID_CURSOR
+      · simp [h1] at hb; omega
+      · simp only [h1, ↓reduceIte] at hb
+        rcases hi.back res _ len hb with ⟨_, d, hd, hr⟩ | ⟨h, _⟩
+        · exact hi.distinct d o hd rfl hr
+        · exact h1 h
+    · intro res r len hb
+      simp only at hb
+      split at hb
+      · rename_i h1; simp at hb; right; exact ⟨h1, _, rfl, hb.1⟩
+      · rename_i h1
+        rcases hi.back res r len hb with hl | ⟨h, _⟩
+        · left; exact hl
+        · exact absurd h h1
+    · intro d hd
+      have h1 := hi.fresh _ _ (hi.fbLive d hd)
+      have hne : d.region ≠ n := by omega
+      have hne2 : d.region ≠ o.region := hi.distinct d o hd rfl
+      simp only [hne, hne2, ↓reduceIte]; exact hi.fbLive d hd
+    · intro d hd; simp at hd; subst hd
+      have : n ≠ o.region := by omega
+      simp [this]
+    · intro r p hl
+      simp only at hl
+      split at hl
+      · simp at hl
+      · split at hl
+        · omega
+        · have := hi.fresh r p hl; omega
+    · intro d d' hd hd'
+      simp at hd'; subst hd'
+      have := hi.fresh _ _ (hi.fbLive d hd)
+      simp; omega
+
+theorem run_append (t : Track) (a b : List Ev) : t.run (a ++ b) = (t.run a).run b := by
+  simp [Track.run, List.foldl_append]
+
+/-- absence of device errors: whatever command it is sent, the device answers with the success type
+the driver expects for it -/
+def NoDeviceErrors (dev : Dev) : Prop := ∀ k b st (c : Cmd), fieldAt (dev k (c.encode b st)) 0 4 = c.expected
+
+macro "leaf" : tactic =>
+  `(tactic| first
+    | (exfalso; apply ‹_ ≠ _›; rfl)
+    | (dsimp only [List.nil_append, List.cons_append] ; (try simp only [‹St.fb _ = _›, ‹St.cursor _ = _›]) ; exact inv_same ‹BackInv _ _ _ _› rfl rfl rfl)
+    | (dsimp only [List.nil_append, List.cons_append] ; (try simp only [‹St.fb _ = _›, ‹St.cursor _ = _›]) ; exact inv_fb_attach _ _ _ _ _ ‹BackInv none _ _ _›)
+    | (dsimp only [List.nil_append, List.cons_append] ; (try simp only [‹St.fb _ = _›, ‹St.cursor _ = _›]) ; exact inv_fb_attach _ _ _ _ _ (inv_fb_teardown _ _ _ _ ‹BackInv (some _) _ _ _›))
+    | (dsimp only [List.nil_append, List.cons_append] ; (try simp only [‹St.fb _ = _›, ‹St.cursor _ = _›]) ; exact inv_same (inv_fb_teardown _ _ _ _ ‹BackInv (some _) _ _ _›) rfl rfl rfl)
+    | (simp only [List.nil_append, List.cons_append, CURSOR_W, CURSOR_H, pagesFor, PAGE, Nat.reduceMul, Nat.reduceAdd, Nat.reduceSub, Nat.reduceDiv, ‹St.fb _ = _›] ; exact inv_cursor _ _ _ _ _ _ _ _ ‹BackInv _ _ _ _›))
+
+theorem step_inv (dev : Dev) (s : St) (op : Op) (t : Track) (hdev : NoDeviceErrors dev)
+    (hi : BackInv s.fb s.cursor s.nextDma t) (hp : (step dev s op).res ≠ .panic) :
+    BackInv (step dev s op).st.fb (step dev s op).st.cursor (step dev s op).st.nextDma (t.run (step dev s op).evs) := by
+  have hd : ∀ k b st (c : Cmd) e, checkType (dev k (c.encode b st)) e = (c.expected == e) := by
+    intro k b st c e; simp [checkType, hdev k b st c]
+  generalize hout : step dev s op = out at hp ⊢
+  rcases hfb : s.fb with _ | d <;> rcases hcur : s.cursor with _ | o <;> rw [hfb, hcur] at hi <;> cases op
+  case none.none.setupFramebuffer f | some.none.setupFramebuffer f | none.some.setupFramebuffer f | some.some.setupFramebuffer f =>
+    simp only [step, setupFramebuffer, getDisplayInfoThen, Ctx.ctrl, hd, Cmd.expected, beq_self_eq_true, ↓reduceIte] at hout
+    generalize fieldAt (dev 0 (Cmd.encode s.base s.stride Cmd.getDisplayInfo)) 32 4 = w at hout
+    generalize fieldAt (dev 0 (Cmd.encode s.base s.stride Cmd.getDisplayInfo)) 36 4 = hh at hout
+    gpu_unfold [hfb] at hout
+    (try simp only [hcur, hd, Cmd.expected, beq_self_eq_true, Bool.not_true, Bool.false_eq_true, ↓reduceIte] at hout)
+    (repeat' split at hout) <;> subst hout <;> (try leaf)
+    all_goals (dsimp only [List.nil_append, List.cons_append]; exact inv_same hi rfl rfl rfl)
+  all_goals (gpu_unfold [hfb] at hout <;>
+    (try simp only [hcur, hd, Cmd.expected, beq_self_eq_true, Bool.not_true, Bool.false_eq_true, ↓reduceIte] at hout) <;>
+    (repeat' split at hout) <;> subst hout)
+  all_goals (try leaf)
+  all_goals (dsimp only [List.nil_append, List.cons_append]; exact inv_same hi rfl rfl rfl)
+
+/-- outcomes of a history of operations -/
+def runOps (dev : Dev) : St → List Op → List Out
+  | _, [] => []
+  | s, op :: ops => step dev s op :: runOps dev (step dev s op).st ops
+
+def finalSt (dev : Dev) : St → List Op → St
+  | s, [] => s
+  | s, op :: ops => finalSt dev (step dev s op).st ops
+
+def traceOf (outs : List Out) : List Ev := outs.flatMap (·.evs)
+
+def Track.init : Track :=
+  { live := fun _ => none, backing := fun _ => none, adv := fun _ => none, violated := False }
+
+theorem history_inv (dev : Dev) (hdev : NoDeviceErrors dev) : ∀ (ops : List Op) (s : St) (t : Track),
+    BackInv s.fb s.cursor s.nextDma t → (∀ o ∈ runOps dev s ops, o.res ≠ .panic) →
+    BackInv (finalSt dev s ops).fb (finalSt dev s ops).cursor (finalSt dev s ops).nextDma
+      (t.run (traceOf (runOps dev s ops))) := by
+  intro ops
+  induction ops with
+  | nil => intro s t hi _; simpa [runOps, finalSt, traceOf, Track.run] using hi
+  | cons op ops ih =>
+    intro s t hi hp
+    have h1 := step_inv dev s op t hdev hi (hp _ (by simp [runOps]))
+    have h2 := ih (step dev s op).st _ h1 (fun o ho => hp o (by simp [runOps, ho]))
+    simpa [runOps, finalSt, traceOf, run_append] using h2
+
+/-- **GPU backing memory**: in every history of public operations on a fresh driver, against any
+device that reports no errors, in which no operation panics: no DMA region is ever released while a
+device resource still has it attached as backing, every attached backing lies in a live region that
+covers its length, and that length is `width*height*4` of the resource as created. -/
+theorem backing_never_released_while_attached (dev : Dev) (hdev : NoDeviceErrors dev) (s0 : St)
+    (h0 : s0.fb = none ∧ s0.cursor = none) (ops : List Op)
+    (hp : ∀ o ∈ runOps dev s0 ops, o.res ≠ .panic) :
+    ¬ (Track.init.run (traceOf (runOps dev s0 ops))).violated := by
+  have hinit : BackInv s0.fb s0.cursor s0.nextDma Track.init := by
+    rw [h0.1, h0.2]
+    exact ⟨by simp [Track.init], by simp [Track.init], by simp, by simp, by simp [Track.init], by simp⟩
+  exact (history_inv dev hdev ops s0 _ hinit hp).ok
+
+/-- why "absent device errors" is needed: if the device rejects `SET_SCANOUT`, the driver releases the
+region it has just attached (observation; the property excludes device errors) -/
+example :
+    (changeResolution (fun k _ => if k = 2 then le32 0x1200 else le32 0x1100) false {} 2 2).evs =
+      [.req 0 (.create2d RESOURCE_ID_FB 2 2), .alloc 0 1 true, .req 0 (.attach RESOURCE_ID_FB 0 16),
+       .req 0 (.setScanout 0 0 2 2 SCANOUT_ID RESOURCE_ID_FB), .dealloc 0 1] := by decide
+
+/-- why "no operation panics" is needed: a zero-sized framebuffer accepted by the device makes
+`raw_slice` panic after the (empty) region was attached, and unwinding releases it -/
+example :
+    (changeResolution (fun _ _ => le32 0x1100) false {} 0 7).res = .panic ∧
+    (changeResolution (fun _ _ => le32 0x1100) false {} 0 7).evs =
+      [.req 0 (.create2d RESOURCE_ID_FB 0 7), .alloc 0 0 true, .req 0 (.attach RESOURCE_ID_FB 0 0),
+       .req 0 (.setScanout 0 0 0 7 SCANOUT_ID RESOURCE_ID_FB), .dealloc 0 0] := by decide
+
 end Gpu
 
 /-! ## Sound: encoders, response checks, PCM chunking, the transfer loop -/
